@@ -49,6 +49,7 @@ void do_plan(int tier)
   else
     plan.init_threads = sim_plan(3) ? 1 + (int)sim_plan(4) : 0;
   sim_set_cores(2 + (int)sim_plan(4));
+  sim_set_tso(sim_plan(lane == LANE_INTERNAL ? 2 : 4) == 0);  // x86-TSO store buffering instead of sequential consistency
   plan.interleave = (int)sim_plan(2);
   plan.nitems = 1 + (int)sim_plan(C02_MAXITEMS);
   for (int i = 0; i < plan.nitems; i++) {
@@ -77,19 +78,26 @@ void do_plan(int tier)
     plan.reinit_threads = (lane == LANE_INTERNAL ? 2 : 1) + (int)sim_plan(3);
     sim_probe(P_REINIT);
   }
+  plan.sporadic = 0;
+  if (lane != LANE_DEBUG && sim_plan(6) == 0) {
+    plan.sporadic = 1 + (int)sim_plan(6);
+    static const int idles[] = {0, 40, 400, 1100, 1300, 1500, 1800};
+    for (int k = 0; k < plan.sporadic; k++)
+      plan.sporadic_idle[k] = idles[sim_plan(7)] + (int)sim_plan(300);
+  }
   if (plan.burst > 256)
     sim_probe(P_BURST_GT_256);
   if (plan.burst > 40)
     sim_hb_enable(0), sim_set_step_cap(3000000);
   else
-    sim_set_step_cap(600000);
+    sim_set_step_cap(plan.sporadic ? 1500000 : 600000);
 }
 
 void check()
 {
-  int total = plan.nitems + plan.burst;
+  int total = plan.nitems + plan.burst + plan.sporadic;
   for (int i = 0; i < total; i++) {
-    int id = i < plan.nitems ? i : C02_MAXITEMS + (i - plan.nitems);
+    int id = i < plan.nitems ? i : (i < plan.nitems + plan.burst ? C02_MAXITEMS + (i - plan.nitems) : C02_MAXITEMS + 2000 + (i - plan.nitems - plan.burst));
     if (st.created[id] && st.exec[id] != 1)
       sim_fail("C02:not-executed-exactly-once", "function %d executed %d times", id, st.exec[id]);
     if (st.created[id] && st.exec_done[id] != 1)
@@ -119,7 +127,7 @@ void describe(char *buf, size_t n)
   static const char *api[] = {"schedule", "async", "AsyncTask"};
   static const char *ty[] = {"int", "string", "vector<int>", "Tracked"};
   static const char *an[] = {"finished", "valid", "wait", "get", "idle"};
-  int k = snprintf(buf, n, "{\"init_threads\": %d, \"reinit_threads\": %d, \"interleave\": %d, \"burst\": %d, \"items\": [", plan.init_threads, plan.reinit_threads, plan.interleave, plan.burst);
+  int k = snprintf(buf, n, "{\"init_threads\": %d, \"reinit_threads\": %d, \"interleave\": %d, \"burst\": %d, \"sporadic_tasks_after_idle\": %d, \"items\": [", plan.init_threads, plan.reinit_threads, plan.interleave, plan.burst, plan.sporadic);
   for (int i = 0; i < plan.nitems && k < (int)n - 300; i++) {
     const C02Item &it = plan.items[i];
     k += snprintf(buf + k, n - k, "%s{\"api\": \"%s<%s>\", \"task_work\": %d, \"ctor_work\": %d, \"script\": [", i ? "," : "", api[it.api],
@@ -231,6 +239,19 @@ void c02_tracked_assign(const void *p)
   SimOracleScope os;
   if (!live_tracked->count(p))
     sim_fail("C02:result-assigned-before-construction", "a task assigned its result to storage whose result member is not (yet, or no longer) constructed");
+}
+
+void c02_wait_one(int id)
+{
+  // the hand-over happened under the run's scheduling strategy and memory model; whether the task
+  // then runs "with no further action required from the caller" is judged in a fair, fault-free phase
+  sim_set_fair(1);
+  unsigned long long bound = sim_steps() + 30000ULL;
+  while (!st.exec_done[id] && sim_steps() <= bound)
+    sim_yield();
+  if (!st.exec_done[id])
+    sim_fail("C02:never-executed", "a function handed to schedule() after an idle period did not run within the fair bound although the caller only waited (lost wake-up)");
+  sim_set_fair(0);
 }
 
 void c02_drain()
